@@ -95,7 +95,7 @@ func (e *Engine) VerifyFunction(fn *ssa.Function, fc *FuncContract) *FuncReport 
 			}
 		}
 	}()
-	s := &State{heap: map[string]*Term{}, locks: map[string]string{}, ghost: map[string]*Term{}}
+	s := &State{heap: map[string]*Term{}, locks: map[string]string{}, ghost: map[string]*Term{}, hbound: map[string]*Term{}}
 	s.alloc = Var("alloc!0", SInt)
 	s.assume(ILt(IntLit(0), s.alloc))
 	fr := &Frame{fn: fn, vals: map[ssa.Value]Val{}, vars: map[string]Val{}, visited: map[*ssa.BasicBlock]bool{}}
@@ -236,10 +236,83 @@ func (e *Engine) VerifyFunction(fn *ssa.Function, fc *FuncContract) *FuncReport 
 
 // ---------- lemmas ----------
 
+// RegisterAxioms translates `axiom` statements and the closed statements of all lemmas; a lemma is
+// available as an assumption to function VCs and to lemmas declared after it.
+func (e *Engine) RegisterAxioms() error {
+	reg := func(name string, t *Term, order int) {
+		vars := map[string]string{}
+		apps := map[string]*Term{}
+		t.collect(vars, apps, map[string]bool{})
+		n := 0
+		for fn := range apps {
+			if strings.HasPrefix(fn, "sp$") {
+				e.reg.AddAxiom(fn, name, t, order)
+				n++
+			}
+		}
+		if n == 0 {
+			e.warn("axiom %s mentions no spec function and is never used", name)
+		}
+	}
+	x := e.newExec(nil, nil)
+	s := &State{heap: map[string]*Term{}, locks: map[string]string{}, ghost: map[string]*Term{}, hbound: map[string]*Term{}}
+	s.alloc = Var("alloc!0", SInt)
+	for _, ax := range e.cs.Axioms {
+		env := &SpecEnv{x: x, s: s, names: map[string]Val{}, pure: true}
+		t, err := env.boolExpr(ax.E)
+		if err != nil {
+			return fmt.Errorf("axiom %s: %v", ax.Name, err)
+		}
+		reg("axiom:"+ax.Name, t, 0)
+	}
+	for i, lm := range e.cs.Lemmas {
+		x.mode = lm.Mode
+		env := &SpecEnv{x: x, s: s, names: map[string]Val{}, bound: map[string]Val{}, pure: true}
+		var bs []*Term
+		for _, p := range lm.Params {
+			srt, gt, err := env.parseSort(p.Type)
+			if err != nil {
+				return fmt.Errorf("lemma %s: %v", lm.Name, err)
+			}
+			b := Var("lq$"+p.Name, srt)
+			bs = append(bs, b)
+			env.bound[p.Name] = Val{T: b, GoT: gt}
+		}
+		var pre, post []*Term
+		for _, r := range lm.Requires {
+			t, err := env.boolExpr(r.E)
+			if err != nil {
+				return fmt.Errorf("lemma %s: %v", lm.Name, err)
+			}
+			pre = append(pre, t)
+		}
+		for _, en := range lm.Ensures {
+			t, err := env.boolExpr(en.E)
+			if err != nil {
+				return fmt.Errorf("lemma %s: %v", lm.Name, err)
+			}
+			post = append(post, t)
+		}
+		if lm.Induction != "" {
+			mexpr, err := ParseExpr(lm.Induction)
+			if err != nil {
+				return fmt.Errorf("lemma %s: %v", lm.Name, err)
+			}
+			mv, err := env.eval(mexpr)
+			if err != nil {
+				return fmt.Errorf("lemma %s: %v", lm.Name, err)
+			}
+			pre = append(pre, ILe(IntLit(0), mv.T))
+		}
+		reg("lemma:"+lm.Name, Forall(bs, Implies(And(pre...), And(post...))), i+1)
+	}
+	return nil
+}
+
 func (e *Engine) LemmaObligations(lm *Lemma) ([]*Obligation, error) {
 	x := e.newExec(nil, nil)
 	x.mode = lm.Mode
-	s := &State{heap: map[string]*Term{}, locks: map[string]string{}, ghost: map[string]*Term{}}
+	s := &State{heap: map[string]*Term{}, locks: map[string]string{}, ghost: map[string]*Term{}, hbound: map[string]*Term{}}
 	s.alloc = Var("alloc!0", SInt)
 	env := &SpecEnv{x: x, s: s, names: map[string]Val{}, pure: true}
 	for _, p := range lm.Params {
@@ -280,12 +353,16 @@ func (e *Engine) LemmaObligations(lm *Lemma) ([]*Obligation, error) {
 	}
 	var out []*Obligation
 	if lm.Induction != "" {
-		// induction over a natural-number parameter: IH for all smaller values is available
-		kv, ok := env.names[lm.Induction]
-		if !ok {
-			return nil, fmt.Errorf("lemma %s: no parameter %s", lm.Name, lm.Induction)
+		// well-founded induction on a natural-number measure (a parameter or an expression over the
+		// parameters): the statement is available for all arguments with a smaller measure
+		mexpr, err := ParseExpr(lm.Induction)
+		if err != nil {
+			return nil, fmt.Errorf("lemma %s: induction measure: %v", lm.Name, err)
 		}
-		// IH: forall params' with k' < k (and k' >= 0): requires => ensures
+		mcur, err := env.eval(mexpr)
+		if err != nil {
+			return nil, fmt.Errorf("lemma %s: induction measure: %v", lm.Name, err)
+		}
 		sub := env.sub()
 		var bs []*Term
 		for _, p := range lm.Params {
@@ -310,29 +387,42 @@ func (e *Engine) LemmaObligations(lm *Lemma) ([]*Obligation, error) {
 			}
 			ihPost = append(ihPost, t)
 		}
-		kb := sub.bound[lm.Induction].T
-		_ = kv
-		ih := Forall(bs, Implies(And(ILe(IntLit(0), kb), ILt(kb, kv.T), And(ihPre...)), And(ihPost...)))
-		// explicit instance at k-1 with the other parameters unchanged (helps when triggers fail)
-		m := map[string]*Term{}
-		for i, p := range lm.Params {
-			if p.Name == lm.Induction {
-				m[bs[i].Op] = ISub(kv.T, IntLit(1))
-			} else {
-				m[bs[i].Op] = env.names[p.Name].T
-			}
+		mih, err := sub.eval(mexpr)
+		if err != nil {
+			return nil, err
 		}
-		inst := Implies(And(ILe(IntLit(0), kb), ILt(kb, kv.T), And(ihPre...)), And(ihPost...)).Subst(m)
-		hints = append(hints, ih, inst)
-		pre = append(pre, ILe(IntLit(0), kv.T))
+		body := Implies(And(ILe(IntLit(0), mih.T), ILt(mih.T, mcur.T), And(ihPre...)), And(ihPost...))
+		hints = append(hints, Forall(bs, body))
+		if _, isParam := env.names[lm.Induction]; isParam {
+			// explicit instance at k-1 with the other parameters unchanged (helps when triggers fail)
+			m := map[string]*Term{}
+			for i, p := range lm.Params {
+				if p.Name == lm.Induction {
+					m[bs[i].Op] = ISub(mcur.T, IntLit(1))
+				} else {
+					m[bs[i].Op] = env.names[p.Name].T
+				}
+			}
+			hints = append(hints, body.Subst(m))
+		}
+		pre = append(pre, ILe(IntLit(0), mcur.T))
 	}
+	// vacuity guard: the premises alone (no hints, no earlier lemmas) must not be contradictory
+	out = append(out, &Obligation{Name: "lemma:" + lm.Name + "#premises-satisfiable", Fn: "lemma " + lm.Name, Class: "cover",
+		Asserts: append(s.assertList(), pre...), Goal: nil, Note: "requires of the lemma are satisfiable (checked without axioms)", AxiomOrder: -1})
 	for _, en := range lm.Ensures {
 		t, err := env.boolExpr(en.E)
 		if err != nil {
 			return nil, fmt.Errorf("lemma %s ensures: %v", lm.Name, err)
 		}
 		as := append(append(s.assertList(), pre...), hints...)
-		out = append(out, &Obligation{Name: "lemma:" + lm.Name + "#" + en.Name, Fn: "lemma " + lm.Name, Class: "lemma", Asserts: as, Goal: t, Note: en.Text})
+		order := 0
+		for i, l2 := range e.cs.Lemmas {
+			if l2 == lm {
+				order = i + 1
+			}
+		}
+		out = append(out, &Obligation{Name: "lemma:" + lm.Name + "#" + en.Name, Fn: "lemma " + lm.Name, Class: "lemma", Asserts: as, Goal: t, Note: en.Text, AxiomOrder: order})
 	}
 	return out, nil
 }
@@ -426,8 +516,19 @@ func dischargeAll(reg *Registry, obls []*Obligation, dir string, timeout int, se
 				if failedAlready {
 					continue
 				}
-				q := &Query{Name: fmt.Sprintf("%s__%s__%d", j.o.Fn, j.o.Name, j.idx), Asserts: j.o.Asserts, Goal: j.o.Goal}
-				res := reg.Solve(q, dir, timeout, second)
+				q := &Query{Name: fmt.Sprintf("%s__%s__%d", j.o.Fn, j.o.Name, j.idx), Asserts: j.o.Asserts, Goal: j.o.Goal, MaxAxiomOrder: j.o.AxiomOrder}
+				res := reg.Solve(q, dir, timeout, second && j.o.Class != "cover")
+				if j.o.Class == "cover" {
+					// satisfiability check: "unsat" means the premises are contradictory
+					switch res.Status {
+					case "unsat":
+						res.Status = "sat"
+						res.Model = nil
+						res.Raw = "premises are contradictory (vacuous statement)"
+					default:
+						res.Status = "unsat"
+					}
+				}
 				mu.Lock()
 				r := byName[key]
 				r.Secs += res.Secs
